@@ -43,9 +43,9 @@ CLAIMED = {
          "(shared renumbering lemma); remove_regions zeroes exactly the selected regions; borders marks a pixel iff a neighbour under the "
          "mathematical border rule differs (any dimension/mode/neighbourhood, through the re-translated fix_offset); is_same_labeling "
          "(two insert-if-absent maps) decides exactly whether the pixelwise pairs form a bijection of label sets fixing 0; the "
-         "generic N-D bbox scan returns the tight box of the non-zero positions (zeros when empty). The 2-D skip-ahead bbox path, "
-         "labeled.bbox and center_of_mass have executable models compared with executable Coq specifications and with the fresh "
-         "build on generated inputs",
+         "generic N-D bbox scan returns the tight box of the non-zero positions (zeros when empty), the 2-D skip-ahead path equals it, "
+         "and the one-pass labeled.bbox scan returns the tight box of every label's pixels; center_of_mass accumulates weight and first "
+         "moments over exactly the pixels of the label. All executable models are run against the fresh build on generated inputs",
          "Rocq proof + translator + differential correspondence"),
  "C03": ("proof", "Coq theorems (any dimension, any connectivity element): the joins performed by the scan are exactly the "
          "in-image adjacencies of the property (through the re-translated fix_offset in constant mode); the label map is 0 "
@@ -133,8 +133,10 @@ CLAIMED = {
          "pointer = base + <position, strides> for arbitrary strides and visits positions in C order; at_flat addresses the element "
          "with the given C-order index; flat<->position maps are mutually inverse. All kernel theorems (C01-C07, C13-C19) are stated "
          "on logical arrays, hence layout- and heap-independent by construction. The implementation is swept (support): every "
-         "registry function x every array argument x 9 layouts and the non-native byte order x 3 heap perturbations in isolated workers, results compared and "
-         "arguments checked for purity",
+         "registry function x every array argument x 9 layouts, the non-native byte order and a misaligned (packed-record) view x 3 heap "
+         "perturbations (the last with the calls in reverse order) in isolated workers, results compared and arguments checked for "
+         "purity; and ABA blocks (a call, the call with one scalar parameter changed, the first call again, each block in its own process) "
+         "for history-dependence",
          "Rocq proof (array layer) + metamorphic API sweep in isolated processes"),
  "C09": ("proof", "Coq theorems: the shared helper _get_output, RE-TRANSLATED from internal.py on every run (ordered rejection tests, "
          "exception kinds, returned object), accepts a buffer iff dtype, shape and C-contiguity all match and rejects with ValueError/"
